@@ -53,17 +53,20 @@ CLAIMED = {
         "technique": "Coq proof (loop invariants over a model of keywordsearches.py) + differential correspondence",
     },
     "C04": {
-        "text": ("12 theorems (Coq, no axioms) over a model of Processor._delete_nodes acting on the coordinates the read "
-                 "side gathered (parents addressed by object identity, reversed processing, dict / list / set "
-                 "branches): C04_delete_exact_partial - when the gathered coordinates are distinct and in document "
-                 "order within each parent (C04_guard_from_document_order proves that this computable condition implies the guard; true of every collector-free path) the result is the document with "
-                 "exactly those locations removed, every other node, value and relative order kept; "
-                 "C04_root_refused / C04_root_never_deleted; _refuted witnesses for the two listed findings "
-                 "(duplicate / disordered collector results F15, root among other matches F15b).  Tie: the real "
+        "text": ("8 theorems (Coq, no axioms) over a model of Processor._delete_nodes (after the repairs 17f9ea8 and "
+                 "1c243db) acting on the coordinates the read side gathered (parents addressed by object identity; "
+                 "Collector results flattened, the root refused before anything is deleted, one entry per (parent, "
+                 "parentref) place, list elements by descending position, dict / list / set branches): "
+                 "C04_delete_exact - FULL: whatever was gathered, however often and in whatever order, if every "
+                 "gathered coordinate locates a node the result is the document with exactly those locations "
+                 "removed, every other node, value and relative order kept (C04_plan_ordered: the order the code "
+                 "chooses always satisfies the invariant of the deletion loop); C04_root_refused - FULL: a root "
+                 "coordinate anywhere among the gathered ones => YAML Path error, document unchanged; the former "
+                 "_refuted witnesses of findings F15 / F15b are Examples of the repaired behaviour.  Tie: the real "
                  "delete_nodes with the coordinates captured at the entry of _delete_nodes, model vs implementation "
-                 "vs an independent judge over a shadow copy.  C04_delete_exact_end_to_end_partial composes the "
-                 "evaluator model with the delete model (guard: doc_ordered on the query's own answer; "
-                 "C01_results_doc_ordered_refuted shows `**` + filter can gather a node twice)."),
+                 "vs an independent judge over a shadow copy.  C04_delete_exact_end_to_end composes the "
+                 "evaluator model with the delete model (hypothesis: every coordinate of the query's own answer "
+                 "locates a node; `**` + filter answers that name a node twice are inside it)."),
         "design_ref": "DESIGN.md section 4 (C04), docs/C04.md",
         "note": NOTE_COMMON + "  The matched coordinates are an input of this model (obtained from the real Processor); the read side is C01/C02.",
         "technique": "Coq proof (reverse-order index lemmas over an identity-addressed document model) + differential correspondence",
@@ -187,16 +190,20 @@ CLAIMED = {
         "technique": "Coq proof (structural induction over both trees; keyed-join lemma modulo Python key equality) + differential correspondence",
     },
     "C03": {
-        "text": ("15 theorems (Coq, no axioms) over a model of set_value / _apply_change / _update_node with its "
+        "text": ("18 theorems (Coq, no axioms) over a model of set_value / _apply_change / _update_node with its "
                  "whole-document identity-driven recursion and Nodes.make_new_node / wrap_type: the recursion "
-                 "equals a pointwise substitution at the addressed position plus true aliases (C03_set_exact, "
-                 "frame and pointwise lemmas), well-formedness (unique anchor names) is preserved, a failing "
+                 "equals a pointwise substitution at the addressed position plus true aliases - as mapping values, "
+                 "sequence elements and (since the repair 7612ed9) mapping KEYS (C03_set_exact, frame and pointwise "
+                 "lemmas); a change that would rename an alias key onto an existing key is refused with a "
+                 "DuplicateKey YAML Path error and modifies nothing (C03_key_collision_refused, every document; "
+                 "formerly known finding F24); well-formedness is preserved, a failing "
                  "change leaves the document as it was, and any completed history of Set / Create / Delete "
-                 "operations refines a plain-data model over Doc.erase (C03_history_partial, guards = listed "
-                 "findings F24 alias-key collision and F15 disordered collector deletes; C03_history_refuted "
-                 "witness).  The matched coordinates are inputs obtained from the real Processor.  Tie: "
+                 "operations refines a plain-data model over Doc.erase (C03_history_partial: replacements at "
+                 "locations, re-filed alias keys, removals, appended children; the guard no longer excludes alias "
+                 "keys nor - C04 F15 repaired - any located Delete; [name()] renames and matched set members stay "
+                 "outside).  The matched coordinates are inputs obtained from the real Processor.  Tie: "
                  "histories of length <= 4 (quick) / 6 (thorough) step by step against the real code, with a "
-                 "ruamel dump and strict reload after every step."),
+                 "ruamel dump and strict reload after every step, plus a structured stream for aliases used as keys."),
         "design_ref": "DESIGN.md section 4 (C03), docs/C03.md",
         "note": NOTE_COMMON + "  ruamel's dump/reload is exercised by the judge on every step, not modelled; float() and literal_eval are oracles.",
         "technique": "Coq proof (substitution lemma over an identity-addressed document model; refinement to plain data by induction over the history) + differential correspondence",
